@@ -12,5 +12,5 @@ import sys; sys.path.insert(0, '.')
 from props import PROPS
 print(' '.join(sorted({m for c in PROPS.values() for m in c['lean_modules']})))")
 (cd lean && lake build PalomaModel driver PalomaModel.Props.Abi $MODS)
-(cd harness && cp /repo/go.sum . 2>/dev/null || true; go test -c -tags verif -ldflags '-X github.com/cosmos/cosmos-sdk/version.Version=v2.4.0' -o ../bin/harness.test .)
+(cd harness && cp /repo/go.sum . 2>/dev/null || true; go test -c -vet=off -tags verif -ldflags '-X github.com/cosmos/cosmos-sdk/version.Version=v2.4.0' -o ../bin/harness.test .)
 echo setup-ok
